@@ -59,6 +59,11 @@ package samlidp
 //@ requires[cfg] r: r != nil && w != nil && r.Body != nil
 //@ -- what is stored never carries the plaintext password
 //@ assert@call[C19] Put #1 (st Store, key string, v interface{}) uses user User no_plaintext_stored: user.PlaintextPassword == nil
+//@ -- a supplied password - the empty one included - always replaces the stored hash: the previous hash is looked up and
+//@ -- kept only when the request carried no password field, and what is hashed is the supplied password itself
+//@ assert@call[C19] Get #1 (st Store, key string, v interface{}) uses user User keeps_hash_only_without_password: user.PlaintextPassword == nil
+//@ assert@call[C19] GenerateFromPassword #1 (pw []byte, cost int) uses user User hashes_supplied_password:
+//@    user.PlaintextPassword != nil && string(pw) == *user.PlaintextPassword
 
 //@ -- the service registry is kept in step with the stored services
 //@ contract (*Server).HandlePutService
